@@ -3,7 +3,8 @@ pyecore, and the encoding of the same description for Model/StaticDecl.v
 (`run_staticdecl`).  Used by harness/props/c13.py.
 
 description D = {'types': [{'name', 'default': python value}],          data types bound in the module
-                 'classes': [{'name', 'abstract', 'supers': [names], 'features': [fd], 'operations': [od]}]}
+                 'classes': [{'name', 'abstract', 'supers': [names], 'features': [fd], 'operations': [od],
+                              'interface': bool (optional; implementation only: Model/StaticDecl.v does not carry it)}]}
 fd = {'name','kind': 'attr'|'ref','type','lower','upper','ordered','unique','containment','opposite': [c,f]|None,
       'default': python value|None}
 od = {'name', 'params': [{'name','required'}]}
@@ -101,6 +102,8 @@ def source(D, deco, stub='none'):
             body += ['    def __init__(self, **kwargs):', '        super().__init__()',
                      '        for k, v in kwargs.items():', '            setattr(self, k, v)']
         L += body or ['    pass']
+        if c.get('interface'):
+            L.append(f"{c['name']}.eClass.interface = True")
         done.append(c['name'])
     for c in D['classes']:
         for fd in c['features']:
@@ -148,6 +151,8 @@ def build_dynamic(D):
     order = []
     for c in D['classes']:
         classes[c['name']] = E.EClass(c['name'], abstract=c['abstract'])
+        if c.get('interface'):
+            classes[c['name']].interface = True
         order.append(classes[c['name']])
     for c in D['classes']:
         for s in c['supers']:
@@ -181,7 +186,7 @@ def build_dynamic(D):
 
 
 # ------------------------------------------------------------------ reflection (public API only)
-def reflect(eclasses, intern):
+def reflect(eclasses, intern, flags=False):
     """the ordered normal form compared with the model (harness/props/c13.py's description keeps the same
     fields, sorted)"""
     common.use_repo()
@@ -207,7 +212,14 @@ def reflect(eclasses, intern):
             ops.append((op.name, tuple(ps)))
         out.append({'name': ec.name, 'abstract': bool(ec.abstract), 'supers': [s.name for s in ec.eSuperTypes],
                     'features': feats, 'operations': ops})
+        if flags:
+            out[-1]['interface'] = bool(ec.interface)
     return out
+
+
+def strip_flags(desc):
+    """a reflected description without the flags the model does not carry"""
+    return [{k: v for k, v in c.items() if k != 'interface'} for c in desc] if isinstance(desc, list) else desc
 
 
 def type_table(D, intern):
@@ -351,7 +363,8 @@ def gen_descr(rng, max_classes=6):
             if not mro_ok(supers_of, n, sup):
                 sup = sup[:1]
         supers_of[n] = sup
-        classes.append({'name': n, 'abstract': rng.random() < 0.3, 'supers': sup, 'features': [], 'operations': []})
+        classes.append({'name': n, 'abstract': rng.random() < 0.3, 'interface': rng.random() < 0.3, 'supers': sup,
+                        'features': [], 'operations': []})
     for c in classes:
         pool = rng.sample(FNAMES, rng.choice([0, 1, 2, 3, 4, 6]))
         nops = rng.choice([0, 0, 1, 2])
@@ -545,6 +558,7 @@ def ask_module(model, m, intern):
 # history step (ci = index of the class whose instance is used; one instance per class and rendering):
 #   ['mro', ci] ['get', ci, n] ['set', ci, n, v] ['eget', ci, n] ['eset', ci, n, v] ['isset', ci, n] ['unset', ci, n]
 #   ['call', ci, python method name, number of positional arguments] ['state', ci] ['xload', ci]
+#   ['new', ci]: one more instance of the class is created (ok / exception class)
 # values are plain JSON: 'x', 3, True, 1.5, None, ['a'], [1, 2]
 CLASH_TYPES = [('EString', 1), ('EInt', 1), ('EBoolean', 1), ('EDouble', 1), ('EString', -1), ('EInt', -1)]
 CLASH_DEFAULTS = {'EString': [None, 'dflt'], 'EInt': [None, 7], 'EBoolean': [None, True], 'EDouble': [None, 2.5]}
@@ -568,6 +582,12 @@ def _op(rng, name, maxp=3):
     ps = rng.sample(PNAMES, rng.randrange(0, maxp + 1))
     nreq = rng.randrange(0, len(ps) + 1)
     return {'name': name, 'params': [{'name': p, 'required': j < nreq} for j, p in enumerate(ps)]}
+
+
+def _flags(rng, classes):
+    """abstract x interface in all four combinations (mostly plain classes: their instances carry the scenarios)"""
+    for c in classes:
+        c['abstract'], c['interface'] = rng.choice([(False, False)] * 5 + [(False, True)] * 2 + [(True, False), (True, True)])
 
 
 def gen_clash_descr(rng):
@@ -606,6 +626,7 @@ def gen_clash_descr(rng):
             c['operations'].append(_op(rng, on))
     if rng.random() < 0.3:
         leaf['operations'].append(_op(rng, 'describe'))
+    _flags(rng, classes)
     return {'enums': [], 'classes': classes}
 
 
@@ -627,6 +648,7 @@ def gen_keyword_descr(rng):
             other['operations'].append(_op(rng, n, 2))
     if other is not None and rng.random() < 0.5:
         _cls(classes, 'Both', ['Special', 'Other'])
+    _flags(rng, classes)
     return {'enums': [], 'classes': classes}
 
 
@@ -638,6 +660,9 @@ def behave_history(D, rng, xload=True):
             ops.setdefault(python_name(od['name']), set()).update({len(od['params']), sum(p['required'] for p in od['params'])})
     hist = []
     for ci, c in enumerate(D['classes']):
+        hist.append(['new', ci])
+        if c['abstract']:
+            continue                   # no instance to drive: the refusal itself is the observation
         for n in fnames:
             hist.append(['get', ci, n])
             hist.append(['isset', ci, n])
@@ -652,8 +677,8 @@ def behave_history(D, rng, xload=True):
                 hist.append(['call', ci, pn, k])
         hist += [['state', ci], ['mro', ci]]
     if xload:
-        multi = [ci for ci, c in enumerate(D['classes']) if len(c['supers']) > 1] or [len(D['classes']) - 1]
-        hist.append(['xload', rng.choice(multi)])
+        # an instance of every class is saved and loaded back by a static and by a dynamic rendering
+        hist += [['xload', ci] for ci in range(len(D['classes']))]
     return hist
 
 
@@ -673,11 +698,13 @@ class Behaviour:
             self.factories = [self.mod.__dict__[c['name']] for c in D['classes']]
             self.eclasses = [f.eClass for f in self.factories]
             self.pkg = self.mod
-        self.objs, self.log, self.EObserver = {}, [], EObserver
+        self.objs, self.log, self.EObserver, self.loaders = {}, [], EObserver, None
 
     def close(self):
         if self.mod is not None:
             forget(self.mod)
+        for b in self.loaders or []:
+            b.close()
 
     def obj(self, ci):
         if ci not in self.objs:
@@ -697,6 +724,9 @@ class Behaviour:
         return out
 
     def step(self, st):
+        if st[0] == 'new':
+            self.factories[st[1]]()
+            return 'created'
         k, o = st[0], self.obj(st[1])
         if k == 'mro':
             names = {c['name'] for c in self.D['classes']}
@@ -732,8 +762,9 @@ class Behaviour:
             r = ResourceSet().create_resource(URI(path))
             r.append(o)
             r.save()
-            for render in ('static-meta', 'dynamic'):
-                b = Behaviour(self.D, render)
+            if self.loaders is None:
+                self.loaders = [Behaviour(self.D, render) for render in ('static-meta', 'dynamic')]
+            for b in self.loaders:
                 try:
                     rs = ResourceSet()
                     rs.metamodel_registry['http://p'] = b.pkg
@@ -741,8 +772,6 @@ class Behaviour:
                     res.append(('loaded', root.eClass.name, b.state(root)))
                 except Exception as e:  # noqa
                     res.append(('load raises', type(e).__name__))
-                finally:
-                    b.close()
             r.remove(o)
         return res
 
